@@ -75,7 +75,8 @@ class PatternToken(RegexpBaseToken):
     ~ - cancels pattern effect if placed before ? or * (cancels effect only for next symbol, but not for all)
     Would be useful to recognize argument in function e.g =COUNTIFS(A3:B3; "???le") or =COUNTIFS(A4:B7; "a*")
     """
-    regexp = r'\"(.*(?<![~])[?*]+.*)\"'
+    # a pattern is one string literal: it must not run on to the closing quote of a later literal
+    regexp = r'\"([^\"]*(?<![~])[?*]+[^\"]*)\"'
 
 
 # TODO добавить условие для локализации
@@ -96,7 +97,8 @@ class LiteralToken(RegexpBaseToken):
                     raise E2PyclParserException('Number literal is out of range')
             real_value = repr(real_value)
         elif self.value[1] or self.value[0] == '""':
-            real_value = f'\'{self.value[1]}\''
+            # repr() keeps quotes, backslashes and any other text of the workbook inside the string literal
+            real_value = repr(self.value[1])
         elif self.value[8]:
             real_value = 'True'
         elif self.value[10]:
